@@ -73,7 +73,7 @@ func D2() []core.SeriesSpec {
 	b0 := Regular(`b{l="0"}`, 5000, 30000, 50, 5, 1)
 	b1 := core.SeriesSpec{L: `b{l="1",m="0"}`}
 	for i := 0; i < 20; i++ {
-		b1.S = append(b1.S, pt(int64(i)*45000, float64(2+3*i)))
+		b1.S = append(b1.S, pt(int64(i)*45000, 2.25+3*float64(i))) // never ties with b{l="0"}
 	}
 	return []core.SeriesSpec{a0, a1, a2, a3, b0, b1}
 }
